@@ -179,6 +179,9 @@ func contractsForProperty(prog *Program, id string) ([]string, []*Contract) {
 			keys = append(keys, k)
 			continue
 		}
+		if id == "C13" {
+			continue // safety is claimed per function (function-level props), not through clause tags
+		}
 		all := append(append(append([]*Clause{}, c.Requires...), c.Ensures...), c.Asserts...)
 		for _, ls := range c.Loops {
 			all = append(all, ls.Invariants...)
@@ -405,6 +408,8 @@ func checkProperty(cfg *RunCfg, prog *Program, id string, start time.Time) (int,
 			case o.Clause != nil && len(o.Clause.Props) > 0 && !hasProp(o.Clause.Props, id):
 				// a clause tagged for specific properties (e.g. safety preconditions, requires@C13) only
 				// counts for those properties; it is still assumed where the contract is used
+			case id == "C13" && !direct[k] && (isSafetyKind(o.Kind) || o.Kind == "call-pre" || o.Kind == "propagate"):
+				// C13 claims the functions that carry it: for their callees only the postconditions they rely on
 			case id == "C09" && !direct[k]:
 			case id == "C09" && autoC09[k] && o.Kind != "commute":
 			case isSafetyKind(o.Kind):
@@ -739,7 +744,7 @@ func runSafetySweep(cfg *RunCfg) int {
 		r := VerifyFunc(prog, prog.Funcs[k], cfg.Tier)
 		var sel []*Obligation
 		for _, o := range r.Obligations {
-			if isSafetyKind(o.Kind) {
+			if isSafetyKind(o.Kind) || o.Kind == "call-pre" {
 				sel = append(sel, o)
 			}
 		}
@@ -759,6 +764,9 @@ func runSafetySweep(cfg *RunCfg) int {
 		status := "ok"
 		if r.EngineError != "" {
 			status = "ENGINE: " + r.EngineError
+		}
+		if bad == 0 && r.EngineError == "" {
+			fmt.Printf("CLEAN %s %d\n", r.Key, len(r.Obligations))
 		}
 		fmt.Printf("%-55s safety=%d open=%d %s\n", r.Key, len(r.Obligations), bad, status)
 		for _, o := range r.Obligations {
